@@ -241,6 +241,17 @@ func (p *rigPlugin) PreCall(ctx context.Context, serviceName, methodName string,
 	return args, nil
 }
 
+var errRigPostCall = errors.New("verif: vetoed after the call")
+
+// PostCall: a plugin that fails an otherwise successful call (an audit / quota plugin) and, like most,
+// hands back the reply it was given
+func (p *rigPlugin) PostCall(ctx context.Context, serviceName, methodName string, args, reply interface{}, err error) (interface{}, error) {
+	if a, ok := args.(*PArgs); ok && a.Mode == "veto" {
+		return reply, errRigPostCall
+	}
+	return reply, nil
+}
+
 func (p *rigPlugin) HandleConnAccept(conn net.Conn) (net.Conn, bool) {
 	m := atomic.LoadInt32(&wrapChunky) // read before the acceptance becomes visible to the harness
 	n := atomic.AddInt32(&p.r.accepted, 1)
